@@ -85,7 +85,19 @@ def cases(draw, cfg, kind=None):
         op1 = draw_op(draw, draw(st.sampled_from(['del', 'pop', 'clear'])), ki, vi, focus)
         op2 = draw_op(draw, draw(st.sampled_from(['del', 'pop', 'clear', 'set'])), ki, vi, focus)
         return {'cfg': cfg, 'keys': pool, 'vals': vals, 'prior': prior, 'op': op1, 'k1': draw(st.integers(0, 40)), 'prior2': [['set', focus, draw(vi)]], 'op2': op2,
-                'tmp_elsewhere': False}
+                'tmp_elsewhere': False, 'seeded_rng': draw(st.booleans())}
+    if kind == 'gen2seeded':
+        # a program that seeds the global random generator the same way in every run: a store is killed, the next run draws the SAME
+        # temporary names and meets the debris. The killed store is of a key that needs an extra input file (not a plain string), the next one
+        # of another key - preferably a plain string
+        nonstr = [i for i, sp in enumerate(pool) if sp[0] != 's']
+        strs = [i for i, sp in enumerate(pool) if sp[0] == 's']
+        k1 = draw(st.sampled_from(nonstr or list(range(nk))))
+        k2 = draw(st.sampled_from([i for i in (strs or list(range(nk))) if i != k1] or [k1]))
+        op1 = ['set', k1, draw(vi)]
+        op2 = draw(st.sampled_from([['set', k2, draw(vi)], ['upd', [[k2, draw(vi)]]], ['setdef', k2, draw(vi)], ['dump', [[k2, draw(vi)]]]]))
+        return {'cfg': cfg, 'keys': pool, 'vals': vals, 'prior': prior, 'op': op1, 'k1': draw(st.integers(0, 40)), 'prior2': [], 'op2': op2,
+                'tmp_elsewhere': False, 'seeded_rng': True}
     if kind == 'gen2':
         # second generation: the prior state of the enumerated operation is itself the debris of a crashed operation
         # (leftover staging / hidden directories, journals, temporary files), possibly followed by a few ordinary operations
@@ -97,7 +109,7 @@ def cases(draw, cfg, kind=None):
             prior2.append(['set', draw(ki), draw(vi)])
         op2 = draw_op(draw, draw(st.sampled_from(['del', 'pop', 'set', 'clear', 'upd', 'open'])), ki, vi, focus if draw(st.integers(0, 9)) < 7 else None)
         return {'cfg': cfg, 'keys': pool, 'vals': vals, 'prior': prior, 'op': op1, 'k1': draw(st.integers(0, 40)), 'prior2': prior2, 'op2': op2,
-                'tmp_elsewhere': draw(st.integers(0, 3)) == 0}
+                'tmp_elsewhere': draw(st.integers(0, 3)) == 0, 'seeded_rng': draw(st.booleans())}
     kind = kind or draw(st.sampled_from(OPKINDS))
     # a quarter of the cases run the operation with the process's temporary directory (TMPDIR) on another file system than the archive
     return {'cfg': cfg, 'keys': pool, 'vals': vals, 'prior': prior, 'op': draw_op(draw, kind, ki, vi), 'tmp_elsewhere': draw(st.integers(0, 3)) == 0}
@@ -111,6 +123,8 @@ def strata(tier):
             out.append(('%s/%s' % (c, k), cases(c, k)))
         out.append(('%s/gen2' % c, cases(c, 'gen2')))
         out.append(('%s/gen2redo' % c, cases(c, 'gen2redo')))
+        if A.is_dir(c):
+            out.append(('%s/gen2seeded' % c, cases(c, 'gen2seeded'), 2))
     return out
 
 
@@ -135,7 +149,13 @@ def other_filesystem_dir(base):
     return None
 
 
+_SEEDED = {'on': False}
+
+
 def perform(cfg, root, op, keys, vals):
+    if _SEEDED['on']:
+        import random
+        random.seed(20240229)            # the user program seeds the global generator the same way in every run (reproducible science)
     if _ELSEWHERE['dir']:
         os.environ['TMPDIR'] = _ELSEWHERE['dir']         # in the armed child only
         tempfile.tempdir = None
@@ -280,12 +300,16 @@ def run_case(case):
     base = tempfile.mkdtemp(prefix='c13_', dir=_tmproot())
     other = other_filesystem_dir(base) if case.get('tmp_elsewhere') else None
     _ELSEWHERE['dir'] = other
+    _SEEDED['on'] = bool(case.get('seeded_rng'))
     try:
         out, nt, classes = _run(case, base)
         if case.get('tmp_elsewhere'):
             classes.append('tmpdir_on_other_fs' if other else 'other_fs_unavailable')
+        if case.get('seeded_rng'):
+            classes.append('user_seeds_global_rng')
         return out, nt, classes
     finally:
+        _SEEDED['on'] = False
         _ELSEWHERE['dir'] = None
         shutil.rmtree(base, ignore_errors=True)
         if other:
@@ -397,6 +421,9 @@ def _run(case, base):
     C1 = dict(obs['items'][1])
     if case['prior2']:
         def mk2():
+            if _SEEDED['on']:
+                import random
+                random.seed(20240229)
             a = A.open_archive(cfg, d1, 'A')
             for p in case['prior2']:
                 A.apply_write(a, p, keys, vals)
